@@ -47,7 +47,17 @@ class Rec:
 
 
 class _GenList(list):
-    """The items of a generator expression (evaluated eagerly). A list for every consumer; next() takes items from the front."""
+    """The items of a generator (evaluated eagerly). A list for every consumer; next() takes items from the front; `pending` is
+    what the generator raises once it is exhausted (exception, raised by a raise statement?)."""
+    pending = None
+
+
+def _exhausted(gen):
+    """Called by a consumer that has taken every item of `gen`."""
+    if isinstance(gen, _GenList) and gen.pending is not None:
+        r_ = ExcRaised(gen.pending[0])
+        r_.explicit = gen.pending[1]
+        raise r_
 
 
 class LambdaVal:
@@ -302,7 +312,7 @@ _PURE = {'len': len, 'int': int, 'float': float, 'str': str, 'bool': bool, 'abs'
          'reversed': lambda x: list(reversed(x)),
          'isinstance': None, 'type': None, 'set': set, 'frozenset': frozenset, 'tuple': tuple,
          'list': list, 'min': min, 'max': max, 'bin': bin, 'oct': oct, 'hex': hex, 'chr': chr, 'ord': ord, 'divmod': divmod,
-         'pow': pow, 'dict': dict, 'repr': repr, 'hash': hash, 'format': format, 'callable': callable}
+         'pow': pow, 'dict': dict, 'repr': repr, 'hash': hash, 'format': format, 'callable': callable, 'slice': slice}
 import operator as _op
 _INPLACE = {ast.Add: _op.iadd, ast.Sub: _op.isub, ast.Mult: _op.imul, ast.Div: _op.itruediv, ast.FloorDiv: _op.ifloordiv, ast.Mod: _op.imod,
             ast.Pow: _op.ipow, ast.LShift: _op.ilshift, ast.RShift: _op.irshift, ast.BitAnd: _op.iand, ast.BitOr: _op.ior, ast.BitXor: _op.ixor}
@@ -551,6 +561,7 @@ class Interp:
                 except _Continue:
                     continue
             if not broke:
+                _exhausted(it)
                 self.block(s.orelse)
         elif isinstance(s, ast.Expr):
             self.ev(s.value)
@@ -1421,12 +1432,15 @@ class Interp:
             if isinstance(args[0], _GenList):
                 if args[0]:
                     return args[0].pop(0)
+                _exhausted(args[0])
                 if len(args) == 2:
                     return args[1]
                 raise ExcRaised(Ref('builtin:StopIteration'))
             if isinstance(args[0], (list, tuple, dict, set, str)):
                 raise ExcRaised(Ref('builtin:TypeError'))          # not an iterator
             raise Unmodelled('next() of a symbolic iterator')
+        if any(isinstance(a_, _GenList) and a_.pending is not None for a_ in args):
+            raise Unmodelled('a generator that raises after its last item is handed on as an argument (lazy consumption is not modelled)')
         if isinstance(fn, ast.Name) and fn.id == 'iter' and fn.id not in self.env and len(args) == 1 and not kwargs \
                 and isinstance(args[0], (list, tuple, set, dict, str)) and not isinstance(args[0], _GenList):
             return _GenList(list(args[0]))
@@ -1511,6 +1525,25 @@ class Interp:
                 return _PURE[fn.id](*args, **kwargs)
             except Exception as exc:
                 raise ExcRaised(_exc_ref(exc))
+        # whatever the callee expression evaluates to: an instance with __call__, a function value, a bound method of a native value
+        try:
+            val_ = self.ev(fn)
+        except Unmodelled:
+            val_ = None
+        if isinstance(val_, Rec) and isinstance(val_.f.get('cls'), str):
+            found_, res_ = self._dunder(val_, '__call__', *args) if not kwargs else (False, None)
+            if found_:
+                return res_
+        elif isinstance(val_, (Closure, LambdaVal, RawFunc, BoundMethod, Partial, NativeMethod, LruCache)) or (isinstance(val_, PyModel) and callable(val_)):
+            return self.invoke(val_, list(args), kwargs)
+        elif isinstance(val_, Ref) and val_.ref.startswith('pkg:') and self.a.res.lookup(val_.ref)[1] is not None:
+            return self.invoke(val_, list(args), kwargs)
+        elif val_ is not None and callable(val_) and type(val_).__name__ in ('builtin_function_or_method', 'method-wrapper', 'method_descriptor') \
+                and all(_concrete(a_) for a_ in args) and not kwargs:
+            try:
+                return val_(*args)          # a method of a native value (int.__neg__, str.upper, ...)
+            except Exception as exc:
+                raise ExcRaised(_exc_ref(exc))
         raise Unmodelled(f'call {ast.unparse(fn)}(...) at line {n.lineno}')
 
     def _inline(self, om, fnode, args, kwargs, closure=False, skip_first=False, self_class=None):
@@ -1588,6 +1621,12 @@ class Interp:
             sub._yielded = []
         out = sub.run(fnode.body)
         self.out.events.extend(out.events)
+        if out.end == 'raise' and is_gen and sub._yielded:
+            # the generator is expanded eagerly; what it raises after its last item is met by whoever exhausts it, not before
+            self.out.events.append(('<eager-generator>', ()))
+            gen_ = _GenList(sub._yielded)
+            gen_.pending = (out.value, out.explicit)
+            return gen_
         if out.end == 'raise':
             r_ = ExcRaised(out.value)
             r_.explicit = out.explicit
@@ -1595,7 +1634,7 @@ class Interp:
         if is_gen:
             # the generator is expanded eagerly: laziness *inside* it is not modelled
             self.out.events.append(('<eager-generator>', ()))
-            return list(sub._yielded)
+            return _GenList(sub._yielded)
         return out.value if out.end == 'return' else None
 
     def invoke(self, callee, args, kwargs=None):
@@ -1739,6 +1778,7 @@ class Interp:
             self.store(g.target, item)
             if all(self._cov(c, self.truth(self.ev(c))) for c in g.ifs):
                 self._comp(gens, i + 1, emit)
+        _exhausted(it)
         # comprehension variables do not leak
         for k in list(self.env):
             if k not in saved:
